@@ -248,3 +248,36 @@ Definition with_bcd (m : msg) (bcd : list N) : msg :=
      m_body := m_body m; m_check := m_check m |}.
 Definition reply_at (h : heap) (m : dmsg) (rid ps : N) (body : list N) : list N :=
   encode (with_bcd (d_hdr m) (deref h (d_bcd m))) rid ps body.
+
+(* ---------------- specification vocabulary ---------------- *)
+(* some delivered message shows, at some later point of the history, a content different from
+   the one it had when it was handed out *)
+Definition changes (v : variant) (bufsz : nat) (evs : list ev) : Prop :=
+  exists k m j, delivered_at v bufsz evs k m /\ (S k <= j)%nat /\
+    content (p_heap (state_at v bufsz evs j)) m <> content (p_heap (state_at v bufsz evs (S k))) m.
+
+(* ---------------- concrete histories (witnesses of the two repaired mechanisms) ---------------- *)
+Definition ex_hdr : msg :=
+  {| m_id := 2; m_len := 0; m_enc := 0; m_frag := 0; m_ver := 0; m_bcd := [1; 35; 69; 103; 137; 1];
+     m_serial := 0; m_sum := 0; m_no := 0; m_body := []; m_check := 0 |}.
+(* three escape-free frames of equal length from the same terminal *)
+Definition ex_f1 : list N := encode ex_hdr 512 1 [1; 2; 3].
+Definition ex_f2 : list N := encode ex_hdr 512 2 [4; 5; 6].
+Definition ex_f3 : list N := encode ex_hdr 512 3 [7; 8; 9].
+(* two frames in two reads: without the clone the first message lives in the read buffer *)
+Definition ex_alias_evs : list ev := [Read ex_f1 false 0; Read ex_f2 false 0].
+(* one frame split over two reads (buffered path, consumed completely), then two frames in one
+   read: with historyData[0:0] the append writes them over the first frame *)
+Definition ex_reuse_evs : list ev :=
+  [Read (firstn 5 ex_f1) false 64; Read (skipn 5 ex_f1) false 64; Read (ex_f2 ++ ex_f3) false 64].
+(* the same, and the connection closes *)
+Definition ex_close_evs : list ev := [Read ex_f1 false 0; Close].
+
+Definition dmsg0 : dmsg :=
+  {| d_hdr := empty_msg; d_raw := nil_slice; d_body := nil_slice; d_bcd := nil_slice; d_complete := false |}.
+(* the i-th message handed out by event k *)
+Definition delivered_nth (v : variant) (bufsz : nat) (evs : list ev) (k i : nat) : dmsg :=
+  match nth_error evs k with
+  | Some e => nth i (o_msgs (step v bufsz (state_at v bufsz evs k) e)) dmsg0
+  | None => dmsg0
+  end.
